@@ -288,8 +288,7 @@ class PyReader:
                 for case in s.cases:
                     hit = self.match_pattern(case.pattern, subject, env, fns, s)
                     if hit and case.guard is not None:
-                        g_ = self.ev(case.guard, env, fns)
-                        hit = bool(g_) if isinstance(g_, bool) else self.fail(case.guard, "guard not decidable")
+                        hit = self.truthy(self.ev(case.guard, env, fns), case.guard)
                     if hit:
                         self.block(case.body, env, fns)
                         break
